@@ -425,9 +425,20 @@ func run(r *ev.Run) {
 		go func(sc scenario) {
 			defer wg.Done()
 			defer func() { <-sem }()
-			panicked, val, stack := ev.Guard(func() { runScenario(r, dir, sc) })
-			if panicked {
-				r.Violation("panic", fmt.Sprint(val), map[string]any{"scenario": sc, "stack": stack})
+			done := make(chan struct{})
+			go func() {
+				defer close(done)
+				panicked, val, stack := ev.Guard(func() { runScenario(r, dir, sc) })
+				if panicked {
+					r.Violation("panic", fmt.Sprint(val), map[string]any{"scenario": sc, "stack": stack})
+				}
+			}()
+			select {
+			case <-done:
+			case <-time.After(5 * time.Minute):
+				// a scenario takes well under a second; one that is stuck (e.g. inside Open on a
+				// damaged directory) is abandoned so that the run can report what it has found
+				r.Inconclusive(fmt.Sprintf("scenario %d did not finish within 5 minutes (abandoned)", sc.ID))
 			}
 		}(sc)
 	}
